@@ -47,10 +47,8 @@ SPEC("pane.classes", "_make_ord.<locals>._pane_ord",
 # ---- hash: the tuple of the hash-fields, in order -------------------------------------------------------------------------
 SPEC("pane.classes", "_make_hash.<locals>.__hash__",
      shapes=CLOSURE_SHAPES, preamble=True,
-     ensures=[(lambda self, fields, result: exists_val(lambda T: result == hash_of(T) and isinstance(T, tuple)
-                                                       and slen(T) == count_where(slen(fields), lambda i: sat(fields, i).hash)
-                                                       and forall(range(slen(T)), lambda j: sat(T, j) == fv(self, fields, nth_where(
-                                                           slen(fields), lambda i: sat(fields, i).hash, j)))), ["C16"], "hash")])
+     ensures=[(lambda self, fields, result: result == hash_of(kept_seq(
+         "tuple", slen(fields), lambda i: sat(fields, i).hash, lambda i: dynattr(self, sat(fields, i).name))), ["C16"], "hash")])
 
 # ---- the rule table (unsafe_hash, eq, frozen, explicit __hash__) -> action, as in the standard library ------------------
 def std_hash_action(unsafe_hash, eq, frozen, explicit):
